@@ -12,4 +12,5 @@ broadcast use {fax::g, sax::ix_ok_usize, sax::ix_val_usize, sax::ix_upd_usize, v
 //@include ../textref/body.rs
 //@include ../textown/body.rs
 //@include body.rs
+//@include laws.rs
 //@include ../common/tail.rs
